@@ -10,6 +10,7 @@ import (
 	"os/exec"
 	"path/filepath"
 	"regexp"
+	"sort"
 	"strings"
 	"sync"
 	"time"
@@ -227,7 +228,6 @@ func dischargeEach(obls []*Obligation, dir string, timeoutS, seed, workers int) 
 		}
 		o.Query = f
 		jobs = append(jobs, job{o, f})
-		o.PC = nil // free memory
 	}
 	// cover obligations need only one satisfiable instance per name: try instances one after the other
 	covers := map[string][]job{}
@@ -275,14 +275,212 @@ func dischargeEach(obls []*Obligation, dir string, timeoutS, seed, workers int) 
 			}
 		}(covers[name])
 	}
+	// phase A: every obligation gets a short attempt with one solver (most are easy) at full parallelism
+	record := func(j job, r solveResult) {
+		j.o.Status = r.status
+		j.o.Solver = r.solver
+		j.o.Time += r.secs
+		if r.status == "sat" {
+			j.o.Model = parseModel(r.output)
+			if j.o.replay != nil && j.o.replay.Unsup == "" && len(j.o.replay.Inputs) > 0 {
+				j.o.inVals, j.o.inOk = parseInputValues(r.output, len(j.o.replay.Inputs))
+			}
+		}
+		if r.status != "unsat" && r.status != "sat" {
+			j.o.Notes = append(j.o.Notes, "solver output: "+firstLines(r.output, 6))
+		}
+	}
+	var hard []job
+	var mu sync.Mutex
 	for _, j := range plain {
 		wg.Add(1)
 		sem <- struct{}{}
 		go func(j job) {
 			defer wg.Done()
 			defer func() { <-sem }()
-			run(j)
+			r := runOne(context.Background(), solvers[0], j.file, 3, seed)
+			if r.status == "unsat" || r.status == "sat" {
+				record(j, r)
+				return
+			}
+			j.o.Time += r.secs
+			mu.Lock()
+			hard = append(hard, j)
+			mu.Unlock()
 		}(j)
 	}
 	wg.Wait()
+	// phase A2: obligations whose path condition carries several quantified assumptions are first tried with the
+	// quantifier-free facts plus one or two of the quantified assumptions only (dropping assumptions is sound, and the
+	// few relevant invariants usually suffice); queries are generated here, sequentially.
+	type rjob struct {
+		j     job
+		files []string
+	}
+	var rjobs []rjob
+	var stillHard []job
+	for _, j := range hard {
+		o := j.o
+		var qf, qs []*Term
+		for _, p := range o.PC {
+			if hasQuant(p) {
+				qs = append(qs, p)
+			} else {
+				qf = append(qf, p)
+			}
+		}
+		if len(qs) < 2 || o.Kind == "cover" || o.Kind == "canary" {
+			stillHard = append(stillHard, j)
+			continue
+		}
+		// most relevant first: quantified assumptions sharing the most array / function symbols with the goal
+		gs := symbolsOf(o.Goal)
+		score := map[*Term]int{}
+		for _, q := range qs {
+			n := 0
+			for sname := range symbolsOf(q) {
+				if gs[sname] {
+					n++
+				}
+			}
+			score[q] = n
+		}
+		sort.SliceStable(qs, func(a, b int) bool { return score[qs[a]] > score[qs[b]] })
+		if len(qs) > 12 {
+			qs = qs[:12]
+		}
+		var subsets [][]*Term
+		for _, q := range qs {
+			subsets = append(subsets, []*Term{q})
+		}
+		type pr struct{ a, b, sc int }
+		var prs []pr
+		for a := 0; a < len(qs); a++ {
+			for b := a + 1; b < len(qs); b++ {
+				prs = append(prs, pr{a, b, score[qs[a]] + score[qs[b]]})
+			}
+		}
+		sort.SliceStable(prs, func(x, y int) bool { return prs[x].sc > prs[y].sc })
+		for _, p := range prs {
+			subsets = append(subsets, []*Term{qs[p.a], qs[p.b]})
+		}
+		rj := rjob{j: j}
+		for k, sub := range subsets {
+			if k >= 28 {
+				break
+			}
+			q := BuildQuery(append(append([]*Term{}, qf...), sub...), o.Goal, false, nil)
+			f := strings.TrimSuffix(j.file, ".smt2") + fmt.Sprintf(".r%03d.smt2", k)
+			os.WriteFile(f, []byte(fmt.Sprintf("; reduced query %d for %s\n", k, o.Name)+q), 0o644)
+			rj.files = append(rj.files, f)
+		}
+		rjobs = append(rjobs, rj)
+	}
+	for _, j := range jobs {
+		j.o.PC = nil
+	}
+	for _, rj := range rjobs {
+		wg.Add(1)
+		go func(rj rjob) {
+			defer wg.Done()
+			ctx, cancel := context.WithCancel(context.Background())
+			defer cancel()
+			found := make(chan solveResult, len(rj.files))
+			var iw sync.WaitGroup
+			for _, f := range rj.files {
+				iw.Add(1)
+				sem <- struct{}{}
+				go func(f string) {
+					defer iw.Done()
+					defer func() { <-sem }()
+					if ctx.Err() != nil {
+						return
+					}
+					r := runOne(ctx, solvers[0], f, 20, seed)
+					if r.status == "unsat" {
+						r.output = f
+						found <- r
+						cancel()
+					}
+				}(f)
+			}
+			iw.Wait()
+			select {
+			case r := <-found:
+				rj.j.o.Status = "unsat"
+				rj.j.o.Solver = r.solver
+				rj.j.o.Time += r.secs
+				rj.j.o.Query = r.output
+				rj.j.o.Notes = append(rj.j.o.Notes, "discharged from a subset of the quantified assumptions")
+			default:
+				mu.Lock()
+				stillHard = append(stillHard, rj.j)
+				mu.Unlock()
+			}
+			for _, f := range rj.files {
+				if f != rj.j.o.Query {
+					os.Remove(f)
+				}
+			}
+		}(rj)
+	}
+	wg.Wait()
+	// phase B: the hard ones are raced on all solvers with the full timeout, few at a time so that they get the cores
+	hw := workers / 3
+	if hw < 2 {
+		hw = 2
+	}
+	hsem := make(chan struct{}, hw)
+	for _, j := range stillHard {
+		wg.Add(1)
+		hsem <- struct{}{}
+		go func(j job) {
+			defer wg.Done()
+			defer func() { <-hsem }()
+			record(j, solveQuery(j.file, timeoutS, seed, false))
+		}(j)
+	}
+	wg.Wait()
+}
+
+func hasQuant(t *Term) bool {
+	seen := map[*Term]bool{}
+	var rec func(t *Term) bool
+	rec = func(t *Term) bool {
+		if seen[t] {
+			return false
+		}
+		seen[t] = true
+		if t.Op == OForall || t.Op == OExists {
+			return true
+		}
+		for _, a := range t.Args {
+			if rec(a) {
+				return true
+			}
+		}
+		return false
+	}
+	return rec(t)
+}
+
+// symbolsOf collects the names of the free array / function symbols of a term.
+func symbolsOf(t *Term) map[string]bool {
+	out := map[string]bool{}
+	seen := map[*Term]bool{}
+	var rec func(t *Term)
+	rec = func(t *Term) {
+		if seen[t] {
+			return
+		}
+		seen[t] = true
+		if (t.Op == OVar && t.S.Kind == SArr) || t.Op == OApp {
+			out[t.Name] = true
+		}
+		for _, a := range t.Args {
+			rec(a)
+		}
+	}
+	rec(t)
+	return out
 }
